@@ -255,7 +255,8 @@ class NetworkService(ModelElement):
             for interface in interfaces:
                 owner = self.topo.get_owner_node(interface)
                 if owner is None:
-                    print(f'In validating service {self.name} interface {interface=} has no owner')
+                    # the far end of a peering is a port of the other service, not of a node: it adds no site
+                    continue
                 sites.add(owner.site)
 
             if len(sites) > NetworkServiceSliver.ServiceConstraints[nstype].num_sites:
